@@ -300,6 +300,8 @@ func TestVerifC16_ProcPostEqualsBind(t *testing.T) {
 			parts = append(parts, rapid.SampledFrom([]string{"down", "up", "up", "toggle", "change-query(a)", "put(b)", "toggle-all", "last", "first", "backward-delete-char", "pos(2)", "change-prompt(>> )", "select-all", "exclude", "toggle-sort", "change-query(a,b)", "put(+)", "put(,)"}).Draw(t, "action"))
 		}
 		list := strings.Join(parts, "+")
+		// the request may arrive while jump labels are shown: it ends that mode and is executed all the same
+		jumpFirst := rapid.IntRange(0, 3).Draw(t, "jumpLabelsShown") == 0
 		run := func(viaBind bool) *Status {
 			args := []string{"--no-mouse", "--multi"}
 			if viaBind {
@@ -311,6 +313,11 @@ func TestVerifC16_ProcPostEqualsBind(t *testing.T) {
 				return !st.Reading && st.TotalCount == len(lines) && st.MatchCount == len(lines) && st.Current != nil
 			}); !ok {
 				infra(t, "session did not settle")
+			}
+			if !viaBind && jumpFirst {
+				if code, err := s.Post(rapid.SampledFrom([]string{"jump", "jump-accept"}).Draw(t, "jump")); err != nil || code != 200 {
+					t.Fatalf("POST jump answered %d %v", code, err)
+				}
 			}
 			if viaBind {
 				s.SendHex([]byte{0x14})
@@ -335,13 +342,13 @@ func TestVerifC16_ProcPostEqualsBind(t *testing.T) {
 			return last
 		}
 		a, b := run(false), run(true)
-		vstat.Case("C16/proc-post-equals-bind", list, k >= 2, fmt.Sprintf("actions=%d", k))
+		vstat.Case("C16/proc-post-equals-bind", fmt.Sprint(list, jumpFirst), k >= 2, fmt.Sprintf("actions=%d", k), fmt.Sprintf("jump_labels_shown=%v", jumpFirst))
 		if a == nil || b == nil {
 			t.Fatalf("no state for %q (post=%v bind=%v)", list, a != nil, b != nil)
 		}
 		da, db := describe(a)+fmt.Sprint(a.Matches), describe(b)+fmt.Sprint(b.Matches)
 		if da != db {
-			t.Fatalf("action list %q: POSTed -> %s\nbound to a key and pressed -> %s", list, da, db)
+			t.Fatalf("action list %q: POSTed (while jump labels are shown: %v) -> %s\nbound to a key and pressed -> %s", list, jumpFirst, da, db)
 		}
 	})
 }
